@@ -24,6 +24,7 @@ RULE = ("cases = (mode, TimePoint kwargs, destination offset) for "
         "offset, or the offset has non-zero minutes / zero hours with "
         "negative minutes / magnitude beyond a day; distinct by (mode, "
         "p-fields, destination)")
+RUN_REPO_SUITE = True   # thorough tier: repo tests under these monitors
 DECIDING = ["rezone.post", "dump.post", "eqhash.check"]
 MIN_EVALS = {"rezone.post": 4000, "dump.post": 1000, "eqhash.check": 2000}
 EXHAUSTIVE = {"thorough": "all 11999 destination offsets -99:59..+99:59 "
